@@ -545,6 +545,29 @@ pub fn check_c25(tier: Tier) -> Report {
     rep
 }
 
+/// Verdict of a replayed E2 case given two evaluations of it.
+pub fn replay_verdict(v: &Value, a: Found, b: Found) -> i32 {
+    let case = &v["case"];
+    let want = v["signature"].as_str().unwrap_or("");
+    let prop = case["property"].as_str().unwrap_or("");
+    if a != b {
+        println!("REPLAY-NONDETERMINISTIC");
+        return 2;
+    }
+    println!("replayed case: {case}");
+    match a.iter().find(|(s, _)| s == want) {
+        Some((s, d)) => {
+            println!("VIOLATION property={prop} replay={}", v["__path"].as_str().unwrap_or("<file>"));
+            println!("reproduced: {s}: {d}");
+            1
+        }
+        None => {
+            println!("not reproduced (violations seen: {:?})", a.iter().map(|x| &x.0).collect::<Vec<_>>());
+            0
+        }
+    }
+}
+
 /// `mc replay` for an E2 case: re-evaluates exactly the recorded case.
 pub fn replay(v: &Value) -> i32 {
     let case = &v["case"];
